@@ -181,6 +181,19 @@ func run(w *core.Worker, c Case) {
 			}
 			if !eqP(got, want) {
 				fail("result", "%s(%v, %s) = %v want %v", c.Fn, orig, c.Pred, got, want)
+				return
+			}
+			if c.Fn == "Filter" {
+				// Filter and Reject of the SAME slice split it: every element in exactly one of them
+				var rest []P
+				for _, e := range orig {
+					if !pr(e) {
+						rest = append(rest, e)
+					}
+				}
+				if rej := gogu.Reject(s, pr); !eqP(rej, rest) {
+					fail("filter-then-reject", "Filter(%v, %s) = %v, then Reject of the same slice = %v want %v", orig, c.Pred, got, rej, rest)
+				}
 			}
 		case "GroupBy":
 			key := func(e P) int { return e.V % c.N }
@@ -379,6 +392,27 @@ func run(w *core.Worker, c Case) {
 			}
 			if !eqP(log, orig) {
 				fail("visit-order", "%s(%v): callback saw %v (after un-reversing for ForEachRight)", c.Fn, orig, log)
+				return
+			}
+			// the same slice visited again - by the same helper and by a plain forward walk - must
+			// show the same sequence (a visitor has no business rearranging what it walks over)
+			var again, fwd []P
+			switch c.Fn {
+			case "Map":
+				gogu.Map(s, func(e P) int { again = append(again, e); return 0 })
+			case "ForEach":
+				gogu.ForEach(s, func(e P) { again = append(again, e) })
+			case "ForEachRight":
+				gogu.ForEachRight(s, func(e P) { again = append(again, e) })
+				for i, j := 0, len(again)-1; i < j; i, j = i+1, j-1 {
+					again[i], again[j] = again[j], again[i]
+				}
+			case "Reduce":
+				gogu.Reduce(s, func(e P, acc int) int { again = append(again, e); return acc }, 0)
+			}
+			gogu.ForEach(s, func(e P) { fwd = append(fwd, e) })
+			if !eqP(again, orig) || !eqP(fwd, orig) {
+				fail("visit-order-second-walk", "%s(%v): a second walk over the same slice saw %v, a following ForEach %v", c.Fn, orig, again, fwd)
 			}
 		default:
 			panic("unknown fn " + c.Fn)
